@@ -344,13 +344,20 @@ def as_reference(tree, relpath, done):
         return set()
     proven = set()
     cur = functions(tree)
+    status = {}
+    tree._sa_status = status
+    ref_table = table().get(relpath) or {}
     for key, fn in cur:
         r = reff.get(key)
-        if r is None or _same(fn, r):
+        if r is None:
+            status[key] = ('new', 0, 0)
+            continue
+        if _same(fn, r):
             continue
         # nested defs are compared as part of their parent only
         ok, why = equiv.equivalent(fn, r)
         if not ok:
+            status[key] = ('differs',) + distance(fn, r, [tuple(x) for x in ref_table.get(key, {}).get('locals', [])])
             continue
         new = ast.parse(ast.unparse(r)).body[0]
         normal_form(new)
@@ -362,8 +369,55 @@ def as_reference(tree, relpath, done):
                 n.end_lineno = min(base + getattr(n, 'end_lineno', n.lineno) - 1, last) if getattr(n, 'end_lineno', None) else n.lineno
         fn.args, fn.body, fn.decorator_list, fn.returns = new.args, new.body, new.decorator_list, new.returns
         proven.add(key)
+        status[key] = ('equivalent', 0, 0)
         done.append('%s:%s proven equivalent to its reference form (same behavioural normal form); analysed in that form' % (relpath, key))
+    for key in reff:
+        if key not in dict(cur):
+            status[key] = ('gone', 0, 0)
     return proven
+
+
+_MASK = None
+
+
+def distance(fn, ref, ref_locals):
+    """(changed lines, limit): how far a function is from its reference form.  Two measures, the smaller one counts: changed
+    lines of the behavioural normal form with the numbering masked, and changed lines of the source after the locals
+    have been renamed towards the reference.  limit = max(7, 6 % of the size): every confirmed behaviour-changing patch
+    kept under seeded/ stays below it, most restructurings do not (tools/nf_distance.py)."""
+    import difflib
+    import re
+    from sa import equiv
+    global _MASK
+    if _MASK is None:
+        _MASK = re.compile(r'(#|@|<|lv|after|tv|item|exc|tryjoin)\d+(\.\d+)?(in|g|h\d+)?')
+
+    def changed(a, b):
+        sm = difflib.SequenceMatcher(None, a, b, autojunk=False)
+        return sum(max(i2 - i1, j2 - j1) for tag, i1, i2, j1, j2 in sm.get_opcodes() if tag != 'equal')
+    d1 = None
+    size = 0
+    try:
+        a = [_MASK.sub(r'\1N', x) for x in equiv.normal_form(ref).split('\n')]
+        b = [_MASK.sub(r'\1N', x) for x in equiv.normal_form(fn).split('\n')]
+        d1 = changed(a, b)
+        size = len(a)
+    except Exception:
+        pass
+    ren = plan(fn, ref_locals) if ref_locals else {}
+    c2 = ast.parse(ast.unparse(fn)).body[0]
+    for n in ast.walk(c2):
+        if isinstance(n, ast.Name) and n.id in ren:
+            n.id = ren[n.id]
+
+    def lines(f):
+        body = [x for x in f.body if not (isinstance(x, ast.Expr) and isinstance(x.value, ast.Constant))]
+        return [l.strip() for st in body for l in ast.unparse(st).split('\n')]
+    la, lb = lines(ref), lines(c2)
+    d2 = changed(la, lb)
+    size = max(size, len(la))
+    d = d2 if d1 is None else min(d1, d2)
+    return d, max(7, (6 * size + 99) // 100)
 
 
 _JUMPS = (ast.Return, ast.Raise, ast.Continue, ast.Break)
